@@ -54,6 +54,9 @@ pub struct HedgeCase {
     /// polled, so that a result and a due timer are seen in the same poll
     #[serde(default)]
     pub spawned_first: bool,
+    /// an event listener is registered on the layer
+    #[serde(default)]
+    pub listeners: bool,
 }
 
 fn one() -> u64 {
@@ -92,9 +95,10 @@ fn case_strategy(_tier: Tier) -> BoxedStrategy<HedgeCase> {
             prop::bool::weighted(0.2),
             prop_oneof![4 => Just(0u64), 1 => 1u64..=120, 1 => (1u64..=10).prop_map(|k| k * 10)],
             prop::bool::weighted(0.35),
+            prop::bool::weighted(0.3),
         ),
     )
-        .prop_map(|(max, delay, attempts, order, step_ms, max_last, (clone_ready_ms, drain_budget, poll_delay, spawned_first))| HedgeCase {
+        .prop_map(|(max, delay, attempts, order, step_ms, max_last, (clone_ready_ms, drain_budget, poll_delay, spawned_first, listeners))| HedgeCase {
             max,
             delay,
             attempts,
@@ -106,6 +110,7 @@ fn case_strategy(_tier: Tier) -> BoxedStrategy<HedgeCase> {
             drain_budget,
             poll_delay,
             spawned_first,
+            listeners,
         })
         .boxed()
 }
@@ -181,6 +186,13 @@ async fn interp(case: &HedgeCase) -> Verdict {
     };
     if case.max_last {
         b = b.max_hedged_attempts(case.max);
+    }
+    if case.listeners {
+        struct Quiet;
+        impl tower_resilience_core::EventListener<tower_resilience_hedge::HedgeEvent> for Quiet {
+            fn on_event(&self, _event: &tower_resilience_hedge::HedgeEvent) {}
+        }
+        b = b.on_event(Quiet);
     }
     let layer = b.build();
     let mut svc = layer.layer(crate::svc::SlowClones::new(inner.clone(), case.clone_ready_ms));
@@ -390,6 +402,9 @@ async fn interp(case: &HedgeCase) -> Verdict {
     }
     if case.step_ms > 1 {
         classes.push("coarse_clock_steps");
+    }
+    if case.listeners {
+        classes.push("event_listeners_registered");
     }
     if case.spawned_first {
         classes.push("attempts_run_before_the_hedging_future_each_instant");
